@@ -8,7 +8,8 @@ from .common import frac
 from .runner import PropertyCheck
 
 WEIGHTS = [0, 0, 1, 1, Fraction(1, 4), Fraction(1, 2), Fraction(3, 8), Fraction(15, 16), Fraction(-1, 2), -1, Fraction(1, 2 ** 40), Fraction(-1, 2 ** 40)]   # incl. negative weights (user-built kernels)
-FILLS = ['0', '0', '5/2', '-3', '7', '1/4', 'nan', 'inf', '-inf']
+# (the last three are exact doubles that float16 / float32 cannot hold: a narrower result type rounds them)
+FILLS = ['0', '0', '5/2', '-3', '7', '1/4', 'nan', 'inf', '-inf', '8193/4096', '-4097/2048', '33554433/16777216']
 
 
 def val(s):
